@@ -253,6 +253,7 @@ func c05Alphabet() []c05Cmd {
 		{kind: "add", svc: "sb", host: "foo.com", path: "/", dst: h3, w: 0.2, tags: []string{"a"}},
 		{kind: "add", svc: "sb", host: "", path: "/x", dst: h3, opts: map[string]string{"strip": "/x", "proto": "http", "token": "a=b=="}}, // an option value may itself contain '='
 		{kind: "add", svc: "sa", host: "foo.com", path: "/x", dst: h1},
+		{kind: "add", svc: "sa", host: "foo.com", path: "/x", dst: h1 + "#frag", tags: []string{"build#12"}}, // '#' is data inside a command, not a comment
 		{kind: "add", svc: "sa", host: "foo.com", path: "/", dst: h1, w: 0.5},
 		{kind: "add", svc: "sa", host: "foo.com", path: "/", dst: h1, w: -1}, // negative = no fixed weight: same target as the first command
 		{kind: "add", svc: "sc", host: "foo.com", path: "/X", dst: h2, w: 10}, // weights above 1 are legal (normalised); 10 has trailing zeros in every rendering; /X and /x are different paths
@@ -270,6 +271,7 @@ func c05Alphabet() []c05Cmd {
 		{kind: "weight", form: "svc-tags", svc: "sa", host: "FOO.com", path: "/", w: 0.6, tags: []string{"a", "b"}},
 		{kind: "weight", form: "src-tags", host: "foo.com", path: "/", w: 0.2, tags: []string{"a"}},
 		{kind: "weight", form: "svc", svc: "sb", host: "", path: "/x", w: 0},
+		{kind: "weight", form: "svc", svc: "sb", host: "foo.com", path: "/", w: -0.5}, // w <= 0 means "no fixed weight": takes back the 0.2 sb got with its add
 	}
 }
 
@@ -300,7 +302,7 @@ func c05Script(alpha []c05Cmd, script []int) string {
 
 func TestVerifC05Commands(t *testing.T) {
 	L := ev.Begin("C05", "c05-commands", "model_checking",
-		"explicit-state BFS over route command scripts: 23 commands (paths differing only in letter case, an option value containing '=', add incl. host-case / weight / tags / opts / near-miss destination variants, the 5 del forms, the 3 weight forms); state = canonical reference table; every (state,command) transition rebuilds the real table with NewTable(shortest script + command) and compares hosts, routes, ordered targets (service, url, fixed weight, tags, opts) with the reference interpreter; every state round-trips through Parse(t.String()). non-trivial = transition that changes the state")
+		"explicit-state BFS over route command scripts: 25 commands ('#' inside a destination and a tag, a non-positive weight on a target that has a fixed one, paths differing only in letter case, an option value containing '=', add incl. host-case / weight / tags / opts / near-miss destination variants, the 5 del forms, the 3 weight forms); state = canonical reference table; every (state,command) transition rebuilds the real table with NewTable(shortest script + command) and compares hosts, routes, ordered targets (service, url, fixed weight, tags, opts) with the reference interpreter; every state round-trips through Parse(t.String()). non-trivial = transition that changes the state")
 	alpha := c05Alphabet()
 	maxDepth := 5
 	if ev.Thorough() {
@@ -461,7 +463,8 @@ func c05RoundTrip(L *ev.Layer, tbl Table, ref *c05Tab, detail map[string]interfa
 			L.Violation("roundtrip/target-set-differs", d)
 			return
 		}
-		if math.Abs(wa[0]-wb[0]) > 0.00005+1e-9 {
+		// a fixed weight <= 0 means "none", however it is stored: -0.5 and 0 are the same table
+		if math.Abs(math.Max(wa[0], 0)-math.Max(wb[0], 0)) > 0.00005+1e-9 {
 			d["fixed_before"], d["fixed_after"] = wa[0], wb[0]
 			L.Violation("roundtrip/fixed-weight-differs", d)
 			return
